@@ -638,7 +638,8 @@ func (m *RpcServer) ControlEnvironment(cxt context.Context, req *pb.ControlEnvir
 			WithError(err).
 			Errorf("transition '%s' failed, transitioning into ERROR.", req.GetType().String())
 		// keep err: the caller must learn that the requested transition failed, whatever becomes of GO_ERROR
-		if goErr := env.TryTransition(environment.NewGoErrorTransition(m.state.taskman)); goErr != nil {
+		// a finished environment stays DONE: do not force ERROR on one that a concurrent teardown has completed
+		if goErr := env.TryTransition(environment.NewGoErrorTransition(m.state.taskman)); goErr != nil && env.CurrentState() != "DONE" {
 			log.WithField("partition", env.Id()).Warnf("could not complete requested GO_ERROR transition, forcing move to ERROR: %s", goErr.Error())
 			env.Sm.SetState("ERROR")
 		}
